@@ -17,6 +17,7 @@ import re
 import common
 import gen_common as G
 import gen_checks as GC
+import gen_main
 from common import coq_string, coq_list
 
 PID = 'C05'
@@ -112,7 +113,7 @@ def oracle_text(text, prog):
 
 def run(ctx):
     out = common.Outcome()
-    out.proof = common.proof_status(FAMILY, PROPFILE)
+    out.proof = None
     pg = G.ProgGen(ctx.rng)
     n = ctx.scale(60, 1500)
     cases, metas, seen = [], [], set()
@@ -200,12 +201,17 @@ def run(ctx):
                         'harness: EquationParser + Python ast -> Coq sys; local equations read from Sector.EquationBlock']
     out.assumptions = ['topologies and embedding histories covered per generated program',
                        'local names equal to a function name or k are not generated (they would capture it)']
+    # whole-pipeline model of Model.main() (single-currency programs): canonical names / defined once for ALL programs
+    out.proof = common.proof_status_many([(FAMILY, PROPFILE)] + gen_main.PROOFS)
+    gen_main.extra(ctx, out)
     return out
 
 
 def replay(path):
     obj = json.load(open(path))
     r = obj.get('replay') or {}
+    if r.get('kind') == 'main':
+        return gen_main.replay(obj)
     if r.get('kind') != 'program':
         print('replay names a proof/validation obligation, nothing to execute:', json.dumps(obj)[:600])
         return 1
@@ -217,4 +223,4 @@ def replay(path):
     for f in fails:
         print('FAILS:', f['key'], f['what'][:300])
     print('replay: %s' % ('property violated' if fails else 'property holds on this input'))
-    return 1 if fails else 0
+    return common.replay_status(PID, fails)
